@@ -1099,6 +1099,30 @@ pub fn oracle_sampled(c: &Case, n_tapes: usize, max_nodes: usize) -> Outcome {
     o
 }
 
+/// pinned: out = CreateTuple(x*y, w) on bits, w owned by party 0 (the only output party and the
+/// observer), x by party 1, y by party 2: the container holds an un-reshared product next to a
+/// reshared value and must be reshared before it is revealed
+pub fn pinned_tuple_of_product_and_input() -> Case {
+    let st = |k: K, a: u16, b: u16, p: [u16; 4]| Step { k, a, b, c: 0, p };
+    Case {
+        recipe: Recipe {
+            subs: vec![],
+            steps: vec![
+                st(K::InputSmallBit, 0, 0, [0, 0, 0, 0]),
+                st(K::InputSmallBit, 0, 0, [0, 0, 0, 0]),
+                st(K::InputSmallBit, 0, 0, [0, 0, 0, 0]),
+                st(K::Mul, 0, 30000, [0, 3, 0, 0]),
+                st(K::MkTuple, 0, 65535, [2, 0, 0, 0]),
+            ],
+            out: 0,
+            vals: vec![],
+        },
+        cfg: MpcCfg { owners: vec![0, 1, 2], outs: vec![0], mode: 0, compile_seed: [3; 16] },
+        observer: 0,
+        tape_seed: 1,
+    }
+}
+
 pub fn run(env: &Env) {
     env.assume("pseudo-random masks idealised: PRF keys are opaque identities, every (key, counter, type) request and every Random node is an independent uniform value");
     env.assume("junk supplied by other parties for inputs they do not own is held fixed (zero) inside a group");
@@ -1106,6 +1130,7 @@ pub fn run(env: &Env) {
     env.set_shrink_iters(150);
     let lim = env.pick(12u32, 15u32);
     env.campaign("exhaustive-bit-graphs", "exact view histograms over all relevant oracle assignments x all input assignments", env.n(240, 6000), arb_e_case, move |c| oracle_exhaustive(c, lim));
+    env.pinned("tuple-of-product-and-input", &pinned_tuple_of_product_and_input(), move |c| oracle_exhaustive(c, 16));
     let nt = env.pick(2000usize, 5000usize);
     let mx = env.pick(700usize, 3000usize);
     env.set_shrink_iters(30);
@@ -1114,7 +1139,7 @@ pub fn run(env: &Env) {
 
 pub fn replay(check: &str, case: J) -> Outcome {
     match check {
-        "exhaustive-bit-graphs" => replay_with::<Case, _>(case, |c| oracle_exhaustive(c, 16)),
+        "exhaustive-bit-graphs" | "tuple-of-product-and-input" => replay_with::<Case, _>(case, |c| oracle_exhaustive(c, 16)),
         _ => replay_with::<Case, _>(case, |c| oracle_sampled(c, 5000, 3000)),
     }
 }
